@@ -682,6 +682,22 @@ func (fx *FuncCtx) floatOp(op token.Token, a, b Term, s Sort, node ast.Node) Val
 		}
 		fn := n + sfx
 		fx.declFun(fn, []Sort{s, s}, s)
+		if fx.ieee && fx.con != nil && fx.con.Options["nan-axioms"] == "true" {
+			// the arithmetic stays uninterpreted (bit-precise reasoning about rounding is not
+			// attempted), but when the result is NaN is part of IEEE 754 and is stated exactly
+			var cond string
+			switch n {
+			case "fdiv":
+				cond = "(and (fp.isZero a) (fp.isZero b)) (and (fp.isInfinite a) (fp.isInfinite b))"
+			case "fmul":
+				cond = "(and (fp.isZero a) (fp.isInfinite b)) (and (fp.isInfinite a) (fp.isZero b))"
+			case "fadd":
+				cond = "(and (fp.isInfinite a) (fp.isInfinite b) (not (= (fp.isNegative a) (fp.isNegative b))))"
+			case "fsub":
+				cond = "(and (fp.isInfinite a) (fp.isInfinite b) (= (fp.isNegative a) (fp.isNegative b)))"
+			}
+			fx.declare(fmt.Sprintf("(assert (forall ((a %s) (b %s)) (! (= (fp.isNaN (%s a b)) (or (fp.isNaN a) (fp.isNaN b) %s)) :pattern ((%s a b)))))", s, s, fn, cond, fn))
+		}
 		return app(s, fn, a, b)
 	}
 	cmp := func(ie, op string, x, y Term) Term {
